@@ -51,7 +51,9 @@ class Hook:
     pp_calls = 0
     sf_calls = 0
     pp_armed = False
+    pp_short_armed = False
     sf_raise_at = None
+    sf_extra_at = None
     fired = None
 
     @classmethod
@@ -59,7 +61,9 @@ class Hook:
         cls.pp_calls = 0
         cls.sf_calls = 0
         cls.pp_armed = False
+        cls.pp_short_armed = False
         cls.sf_raise_at = None
+        cls.sf_extra_at = None
         cls.fired = None
 
 
@@ -93,6 +97,10 @@ def callbacks():
     @scared.preprocess
     def pp_cast(traces):
         guard()
+        if Hook.pp_short_armed:
+            Hook.pp_short_armed = False
+            Hook.fired = 'refused_in_update:trace_length'
+            return traces.astype('float32')[:, :-1]
         return traces.astype('float32')
 
     @scared.preprocess
@@ -118,6 +126,9 @@ def make_sf(mode, words, nguess):
             out = np.empty((plaintext.shape[0], len(guesses), plaintext.shape[1]), dtype='uint8')
             for i, g in enumerate(guesses):
                 out[:, i, :] = plaintext ^ np.uint8(g)
+            if Hook.sf_extra_at is not None and Hook.sf_calls == Hook.sf_extra_at:
+                Hook.fired = 'refused_in_update:word_count'
+                out = np.concatenate([out, out[:, :, :1]], axis=2)
             return out
         return scared.attack_selection_function(sf, guesses=range(nguess), words=w)
 
@@ -126,6 +137,9 @@ def make_sf(mode, words, nguess):
         if Hook.sf_raise_at is not None and Hook.sf_calls == Hook.sf_raise_at:
             Hook.fired = 'callback_error:selection_function'
             raise InjectedFault('injected selection function failure')
+        if Hook.sf_extra_at is not None and Hook.sf_calls == Hook.sf_extra_at:
+            Hook.fired = 'refused_in_update:word_count'
+            return np.concatenate([plaintext, plaintext[:, :1]], axis=1)
         return plaintext
     return scared.reverse_selection_function(sf, words=w)
 
@@ -301,9 +315,22 @@ def generate(prop, seed, tier):
         scn['sets'] = scn['sets'][:1]
         if scn['sets'][0] < 2:
             scn['sets'][0] = fr.randint(2, 40)
-        scn['fault'] = {'kind': fr.choice(['storage_meta', 'storage_samples', 'preprocess', 'selection_function']), 'batch': fr.choice([0, 0, 1, 1, 2, 3, 5, -1])}
+        scn['fault'] = {'kind': fr.choice(['storage_meta', 'storage_samples', 'preprocess', 'selection_function', 'pp_short', 'sf_extra_word']),
+                        'batch': fr.choice([0, 0, 1, 1, 2, 3, 5, -1])}
         if scn['fault']['kind'] == 'preprocess' and not scn['chain']:
             scn['chain'] = ['cast']
+        if scn['fault']['kind'] in ('pp_short', 'sf_extra_word'):
+            # the batch is refused *inside* update() (trace length / word count differs from earlier batches): needs >= 2 batches, k >= 1
+            N = scn['sets'][0] = max(scn['sets'][0], 3)
+            scn['rule'] = fr.randint(1, max(1, N // 2))
+            if scn['fault']['batch'] == 0:
+                scn['fault']['batch'] = fr.choice([1, 1, 2, -1])
+            if scn['fault']['kind'] == 'pp_short':
+                scn['chain'] = [c for c in scn['chain'] if c != 'cast'] + ['cast']
+                if scn['frame'] is not None and scn['frame'][0] in ('list', 'ndarray') and len(scn['frame'][1]) < 2:
+                    scn['frame'] = None
+            else:
+                scn['words'] = None
     settle_exact(scn)
     return scn
 
@@ -402,7 +429,7 @@ def _execute(scn, scared):
     fault = scn.get('fault')
     state = {'meta_fetch': 0, 'arm_samples': False}
     if fault:
-        fk = 'storage_read_error' if fault['kind'].startswith('storage') else 'callback_error'
+        fk = 'storage_read_error' if fault['kind'].startswith('storage') else ('refused_in_update' if fault['kind'] in ('pp_short', 'sf_extra_word') else 'callback_error')
         faults[fk + ':' + fault['kind']] = [1, 0]
 
         def on_fetch(kind, tag, ids, key):
@@ -416,6 +443,8 @@ def _execute(scn, scared):
                         state['arm_samples'] = True
                     if fault['kind'] == 'preprocess':
                         Hook.pp_armed = True
+                    if fault['kind'] == 'pp_short':
+                        Hook.pp_short_armed = True
             if kind == 'samples' and state['arm_samples']:
                 state['arm_samples'] = False
                 Hook.fired = 'storage_read_error:samples'
@@ -439,10 +468,17 @@ def _execute(scn, scared):
                 nb = -(-len(samples) // bs)
                 k = fault['batch'] if fault['batch'] >= 0 else nb - 1
                 k = min(k, nb - 1)
+                if fault['kind'] in ('pp_short', 'sf_extra_word'):
+                    k = max(k, 1)
+                    if nb < 2:
+                        return {'violation': None, 'inconclusive': True, 'digest': 'one-batch', 'case': 'one-batch', 'nontrivial': False, 'faults': faults,
+                                'probes': probes, 'sim_time': 0}
                 state['target'] = k + 1
                 state['meta_fetch'] = 0
                 if fault['kind'] == 'selection_function':
                     Hook.sf_raise_at = k + 1
+                if fault['kind'] == 'sf_extra_word':
+                    Hook.sf_extra_at = k + 1
                 try:
                     att.run(container)
                 except (InjectedIOError, InjectedFault) as e:
@@ -539,6 +575,7 @@ def _after_fault(scn, scared, att, rec, storage, sf, E, D, samples, pt, run_exc,
                 'probes': probes, 'sim_time': storage.seq}
     expect_rows = k * bs
     Hook.sf_raise_at = None
+    Hook.sf_extra_at = None
     storage.on_fetch = None
     try:
         if att.processed_traces != expect_rows:
